@@ -49,7 +49,8 @@ def p_node(n, opts=None):
             return '<%s data-m="%s">' % (n["tag"], n["m"])
         extra = ""
         if n.get("idvar"):
-            extra = ' data-echo="{{ %s }}"' % n["idvar"]
+            # idmk: the echo spells the marker attribute's own name (as a CSS selector / script in a template would)
+            extra = ' data-echo="%s{{ %s }}"' % ("data-djc-id-" if n.get("idmk") else "", n["idvar"])
         return '<%s data-m="%s"%s>%s</%s>' % (n["tag"], n["m"], extra, p_nodes(n["c"], opts), n["tag"])
     if t == "var":
         if n.get("p") is not None:
@@ -457,6 +458,8 @@ class Interp:
             echo = None
             if n.get("idvar"):
                 echo = self.lookup(env, n["idvar"])
+                if n.get("idmk"):
+                    echo = ("mk", echo)
             return [("E", n["tag"], n["m"], children, echo, bool(n.get("void")))]
         if t == "var":
             v = self.lookup(env, n["n"])
@@ -752,7 +755,10 @@ def flatten(tree, ids=None):
             _, tag, m, children, echo, void = p
             e = ""
             if echo is not None:
-                e = ' data-echo="%s"' % ("\x01%d\x01" % echo[1] if isinstance(echo, tuple) else echo)
+                pre = ""
+                if isinstance(echo, tuple) and echo[0] == "mk":
+                    pre, echo = "data-djc-id-", echo[1]
+                e = ' data-echo="%s%s"' % (pre, "\x01%d\x01" % echo[1] if isinstance(echo, tuple) else echo)
             if void:
                 out.append('<%s data-m="%s">' % (tag, m))
             else:
